@@ -1,0 +1,11 @@
+//go:build verif
+
+package fasthttpproxy
+
+import "net"
+
+// Thin export for the /verif correspondence harness (property C05).
+
+func VerifHTTPProxyDial(dial func(network, addr string) (net.Conn, error), network, addr, proxyAddr, auth string) (net.Conn, error) {
+	return httpProxyDial(DialerFunc(dial), network, addr, proxyAddr, auth)
+}
